@@ -71,7 +71,7 @@ CLAIMS["C04"] = {"engine": "chainsim", "level": "exploration", "design_ref": "4/
 CLAIMS["C05"] = {"engine": "chainsim", "level": "exploration", "design_ref": "4/C05", "technique": "deterministic simulation: byte-level database dump comparison before apply / after delete for every deletion the system performs",
     "text": "Every tip deletion the nodes perform themselves is followed, synchronously, by a full blockchain-DB dump comparison with the dump recorded before the deleted block was applied.", "note": _chain_note}
 CLAIMS["C15"] = {"engine": "chainsim", "level": "exploration", "design_ref": "4/C15", "technique": "deterministic simulation: own-validation of every generated block and pairwise non-contradiction of all headers a key signs across chain switches, failed syncs and restarts",
-    "text": "The real generator runs on every node; each block it hands on must be accepted by the node's own processing, and the generator DB is read after every forge to collect the signed header triples, which must be pairwise non-contradicting.", "note": _chain_note}
+    "text": "The real generator runs on every node over pools fed by a client workload; each block it hands on must be accepted by the node's own processing, its payload must follow the selection rule (per-sender nonce order, fee priority among the senders' next transactions, failed senders skipped, size limit, no early stop) evaluated on the pool and account nonces observed right before generation, and the generator DB is read after every forge to collect the signed header triples, which must be pairwise non-contradicting. Commands that fail during execution are not part of the workload.", "note": _chain_note}
 CLAIMS["C13"] = {"engine": "chainsim", "level": "exploration", "design_ref": "4/C13", "technique": "deterministic simulation with crash injection: process death at drawn file-system calls inside block commit/removal (torn write, power loss or kill, I/O error, crash during recovery) on a simulated disk; restarted node compared key for key with the before/after image of a fault-free twin",
     "text": "The chain operations a simulated network produces are replayed on a victim node whose disk dies at a drawn file-system call inside processValidated/deleteBlock; after restart the blockchain DB must equal the fault-free twin's before- or after-image, the node must start and report the matching tip, BFT heights, finalized height and application state. Sampling of crash points and histories.",
     "note": "Trusted: pebble's strict MemFS as the durability model, simfs (crash = frozen goroutines + released descriptors), the twin as image source. Background compactions are off."}
